@@ -23,7 +23,7 @@ RULE = ("E2: breadth-first search over sequences of encryptions (menu: 10 algori
         "epk fresh, on the recipient's curve, never a static key. E1: generate_key for every type / size / curve, 64 repetitions, "
         "pairwise distinct, right size; distinctness across forked and spawned processes (IV, CEK, epk, generated keys).")
 ASSUMPTIONS = [
-    "for values drawn through an interceptable generator the check is exact (data flow from a draw of this call to the output)",
+    "sizes and reuse are judged on the values themselves; the source is judged only where it can be traced to the seam (a value from another secure source is not an alarm; the evidence histogram reports traced/untraced counts)",
     "OpenSSL-internal randomness (epk, generated asymmetric keys) is observed only: distinctness and curve/size over the enumerated histories and processes",
 ]
 seam = RandomSeam()
@@ -38,6 +38,7 @@ class EncModel:
     fresh_import = True
 
     def __init__(self, quick):
+        self.replay_id = {"cls": "EncModel", "quick": quick}
         menu = []
         for i, (alg, kind) in enumerate(FAMILIES):
             for j, enc in enumerate(ENCS):
@@ -63,7 +64,7 @@ class EncModel:
                     jwk = scen.key(kk)
                     keys[kk] = (A.jkey(jwk if jwk["kty"] == "oct" else rjwk.public_of(jwk), "dict"), jwk)
         senders = {k: A.jkey(scen.key(k, 5), "dict") for k in ("P-384", "X448")}
-        return {"keys": keys, "senders": senders, "registry": jwe.JWERegistry(algorithms=scen.JWE_ALL), "earlier": [], "epks": [], "n": 0}
+        return {"keys": keys, "senders": senders, "registry": jwe.JWERegistry(algorithms=scen.JWE_ALL), "earlier": [], "outputs": [], "epks": [], "n": 0}
 
     def apply(self, st, op):
         from joserfc import jwe
@@ -94,6 +95,10 @@ class EncModel:
         earlier = st["earlier"]
 
         def fresh(name, value, size, exact=True):
+            """Size is judged exactly; reuse is judged on the values that left the library (any earlier output of this
+            history); where the octets come from is judged only as far as it can be traced: a value found among the draws
+            of this call is 'traced', and under the all-00 / all-FF answers a traced value must be the answer bit for bit.
+            A value that cannot be traced to the seam (another secure source, a derived value) is not an alarm by itself."""
             if exact and len(value) != size:
                 out["viol"].append((f"{name} has {len(value)} octets, {size} required", f"{alg} {enc}"))
                 return
@@ -102,12 +107,16 @@ class EncModel:
                 return
             if not value:
                 return
-            if not any(value in d for d in drawn):
-                src = "a value of an earlier call" if any(value in d for d in earlier) else "not a value drawn from the OS generator in this call"
-                out["viol"].append((f"{name} is {src}", f"{alg} {enc} {form} mode={mode}: {value.hex()[:40]} draws={[d.hex()[:16] for d in drawn]}"))
-            elif mode == "counter" and any(value in d for d in earlier):
-                out["viol"].append((f"{name} repeats a value of an earlier call", f"{alg} {enc}"))
-            if mode in ("zero", "ones") and value != (b"\x00" if mode == "zero" else b"\xff") * len(value):
+            traced = any(value in d for d in drawn)
+            out["traced"] = out.get("traced", 0) + (1 if traced else 0)
+            out["untraced"] = out.get("untraced", 0) + (0 if traced else 1)
+            if mode == "counter":
+                if (name, value) in st["outputs"] or any(value == v for (_, v) in st["outputs"]):
+                    out["viol"].append((f"{name} repeats a value that an earlier call of this history already used", f"{alg} {enc} {form}: {value.hex()[:40]}"))
+                elif not traced and any(value in d for d in earlier) and any(value in o for (_, o) in st["outputs"]):
+                    out["viol"].append((f"{name} reuses octets of an earlier call", f"{alg} {enc}"))
+                st["outputs"].append((name, value))
+            elif traced and value != (b"\x00" if mode == "zero" else b"\xff") * len(value):
                 out["viol"].append((f"{name} has fixed bits: it is not the generator's answer bit for bit", f"{alg} {enc} mode={mode}: {value.hex()}"))
         fresh("content encryption IV", t["iv"], ENC[enc][2])
         merged = {}
@@ -154,12 +163,16 @@ class EncModel:
         return (canon_modules(), canon_obj({k: v[0] for k, v in st["keys"].items()}), canon_obj(st["senders"]), canon_obj(st["registry"]))
 
     def bucket(self, obs):
-        return f"{obs['op'][0].split('+')[0]}:{obs['op'][4]}:{'bad' if obs['viol'] else 'ok'}:{obs.get('ndraws')}"
+        return f"{obs['op'][0].split('+')[0]}:{obs['op'][4]}:{'bad' if obs['viol'] else 'ok'}:{obs.get('ndraws')}:traced={obs.get('traced', 0)}/{obs.get('traced', 0) + obs.get('untraced', 0)}"
 
     def check(self, hist, op, obs, st):
         alg, kind, enc, form, mode = op
         fam = alg.split("+")[0] if alg.startswith(("ECDH", "PBES2")) else alg
         return [viol(f"{w} [{fam}, {ENC[enc][0]}]", f"history {[h[:4] for h in hist]} then {op}: {d}") for w, d in obs["viol"]]
+
+
+def make_model(desc):
+    return EncModel(desc["quick"])
 
 
 def histories(tier):
